@@ -5,7 +5,7 @@ import json
 CHECKS = {
  "C07": ("three rules with every field read by IsHigherPriority symbolic (64-bit option words, 32-bit type masks, exception flags, list lengths 0..1, client sets nil or not): irreflexive, asymmetric, transitive, transitive ties, class order, specific over generic, adding a modifier raises priority",
          "InvRule; go/ssa lowering; engine; z3"),
- "C08": ("twin lemma over two fully symbolic rules (all compared fields incl. list contents) and removeBadfilterRules over k<=3/4 symbolic rules for every $badfilter subset: result == non-badfilter rules without a twin, caller slice untouched",
+ "C08": ("twin lemma over two fully symbolic rules (all compared fields incl. list contents: value lists of length 0..2, $domain/$denyallow in any order with duplicates, $ctag/$client sorted with duplicates) and removeBadfilterRules over k<=3/4 symbolic rules for every $badfilter subset: result == non-badfilter rules without a twin, caller slice untouched",
          "InvRule; list entries one symbolic letter; go/ssa lowering; engine; z3"),
  "C09": ("DNSResult.DNSRewrites over sequences of 0..3 (thorough 0..4) rewrite rules with symbolic exception/important flags and payloads of six kinds (pairs/triples over eleven kinds incl. record types without a value), against the order-independent reference filter; result list untouched",
          "rules built field by field, re-parsed from text on replay; netip globals imported from the native process; engine; z3"),
@@ -15,13 +15,13 @@ CHECKS = {
          "netip.ParseAddr native on concrete literals, modelled as rejecting on digit-free symbolic tokens; engine; z3"),
  "C17": ("ExtractHostname on grammar URLs with symbolic scheme/host/port/path/query/fragment bytes; effectiveTLDPlusOne against the real body of publicsuffix.EffectiveTLDPlusOne on symbolic hosts; every field of NewRequest/NewRequestForHostname incl. third-party symmetry, the 4 KiB cap and an over-long source URL",
          "PSL replaced by a compact model validated exhaustively against the real library each run; net/url agreement validated on 20000 sampled grammar URLs; engine; z3"),
- "C03": ("(a) patternToRegexp on symbolic patterns (1..3/4 bytes): no crash, output == token translation; (b) for every enumerated mask pattern (1..2/3 tokens over 22 tokens incl. all regexp metacharacters, || and /* forms, match-case on/off, plus seeded longer ones) and ALL URLs up to 10/14 printable bytes: compiled regexp accepts u <=> reference mask automaton accepts u (one solver query per pattern and length)",
+ "C03": ("(a) patternToRegexp on symbolic patterns (1..3/4 bytes): no crash, output == token translation; (b) for every enumerated mask pattern (1..2/3 tokens over 22 tokens incl. all regexp metacharacters, || and /* forms, match-case on/off, plus 32 operator idioms such as a{2} or (a|B) and seeded longer ones) and ALL URLs up to 10/14 printable bytes: compiled regexp accepts u <=> reference mask automaton accepts u (one solver query per pattern and length)",
          "regexp program encoded as bounded Pike-VM reachability (validated against MatchString each run); patterns enumerated concretely and parsed natively; D15 known finding excluded; engine; z3"),
- "C04": ("NetworkRule.Match on rules produced by the real parser from the modifier grammar (every single modifier with every value set in every value order, seeded pairs and multi-modifier rules) against the documented semantics of each modifier, for a field-wise symbolic request (flags, one-hot type, DNS type, client name/IPv4/IPv6, sorted tags, source and request hosts of symbolic bytes plus PSL tails)",
+ "C04": ("NetworkRule.Match on rules produced by the real parser from the modifier grammar (every single modifier with every value set in every value order, seeded pairs and multi-modifier rules) against the documented semantics of each modifier, for a field-wise symbolic request (flags, one-hot type, DNS type, client name/IPv4/IPv6, sorted tags, source and request hosts of symbolic bytes plus PSL tails, request hosts also over a hexadecimal letter)",
          "PSL model validated each run; parsed value lists cross-checked natively against the rule text; pattern conjunct fixed true; engine; z3"),
  "C10": ("loadDNSRewrite on symbolic values: short form up to 5/8 bytes, normal form with every response-code and record-type keyword of the dns tables and symbolic values up to 5/8 bytes (SRV 9) for the nine handled record types: accepted => published shape (dynamic type by record type, CNAME alone, RRType only with success, numeric fields equal to a decimal 16-bit reference, PTR a name of non-empty labels), rejected => nil, deterministic, no crash",
          "netip.ParseAddr contract stub on symbolic input; dns tables imported natively; engine; z3"),
- "C05": ("for every enumerated mask pattern, every grammar regular expression of 1..2 atoms over 25 atoms plus seeded longer ones and nested-group shapes, and the regular-expression rules of the bundled lists: for ALL URLs up to 12/20 printable bytes and ALL hostnames up to 8/12 bytes, accepted by the compiled pattern => lower-cased URL contains the shortcut",
+ "C05": ("for every enumerated mask pattern, every grammar regular expression of 1..2 atoms over 25 atoms plus seeded longer ones, nested-group shapes and escape-parity shapes (an escaped backslash or escaped operator in front of an operator), and the regular-expression rules of the bundled lists: for ALL URLs up to 12/20 printable bytes and ALL hostnames up to 8/12 bytes, accepted by the compiled pattern => lower-cased URL contains the shortcut",
          "regexp program encoded as bounded Pike-VM reachability (validated against MatchString each run); rules parsed natively by the real parser; engine; z3"),
  "C01": ("NetworkEngine.AddRule/MatchAll with the real ShortcutsTable, DomainsTable and SeqScanTable on 1..3 symbolic rules (literal shortcut of symbolic bytes below/at/above the window length, symbolic $domain values incl. wildcard TLD, domain and subdomain, deep source hosts) and a symbolic URL and source host: rule.Match(q) <=> rule in MatchAll(q), nothing else returned; the hash is an uninterpreted function so every collision pattern is covered, and in additional jobs the real hash function runs on an alphabet where it collides so that collision-dependent counterexamples replay",
          "perfect storage stub; literal-pattern stub; hash abstraction justified by a lemma on the real body each run; outside the real-hash jobs counterexamples that need a collision are not replayable (noted, outside the claim); PSL model; engine; z3"),
@@ -33,11 +33,11 @@ CHECKS = {
          "representation invariants stated in the evidence; stubs as C01/C02; engine; z3"),
  "C15": ("CosmeticEngine.Match (built by the real NewCosmeticEngine over rules parsed by the real parser: every single rule and ordered pair of an 18-rule menu plus triples) for a symbolic hostname and symbolic flags against the reference (CosmeticRule.Match over all rules minus matching exceptions with equal content), selectors filed generic/specific, also after another query whose result the caller overwrote; GetCosmeticResult passes exactly the three option bits",
          "scanner stubbed as perfect; PSL model; engine; z3"),
- "C12": ("NewRule on lines of 0..5/7 symbolic bytes over six syntax alphabets: no run-time panic on any path; nothing only for blank/comment lines, else a rule with Text()==TrimSpace(line) and the given list id, or an error; the parsing helpers and every loadOption name with symbolic values likewise",
+ "C12": ("NewRule on lines of 0..5/7 symbolic bytes over seven alphabets (six syntax alphabets and all six ASCII white-space characters): no run-time panic on any path; nothing only for blank/comment lines, else a rule with Text()==TrimSpace(line) and the given list id, or an error; the parsing helpers and every loadOption name with symbolic values likewise",
          "bounded no-panic claim for the listed functions, not for long real-world lines; netip/regexp contract stubs; paths into findRegexpShortcut with symbolic input are cut and counted; engine; z3"),
- "C11": ("index packing injective and invertible for all int32 pairs; in-memory list content of 0..4/6 symbolic bytes scanned through the real RuleScanner+bufio.Reader+strings.Reader and retrieved through the real RetrieveRule: scanned sequence == line-by-line parse (kind, text, list id, index), RetrieveRule(idx) == scanned rule, CRLF invariance; storage of 1..3 lists with arbitrary int32 ids serves each index from the list and offset it names; storage scanner over 2..4 lists; lines about as long as the 4 KiB read buffer; file-backed list == in-memory list (small buffers, short reads, two retrievals in a row)",
+ "C11": ("index packing injective and invertible for all int32 pairs; in-memory list content of 0..4/6 symbolic bytes scanned through the real RuleScanner+bufio.Reader+strings.Reader and retrieved through the real RetrieveRule: scanned sequence == line-by-line parse (kind, text, list id, index), RetrieveRule(idx) == scanned rule, CRLF invariance, also for a list that starts with a UTF-8 byte order mark; storage of 1..3 lists with arbitrary int32 ids serves each index from the list and offset it names; storage scanner over 2..4 lists; lines about as long as the 4 KiB read buffer; file-backed list == in-memory list (small buffers, short reads, two retrievals in a row)",
          "rule classification is the exact table of the real NewRule over {a,#,space} (computed natively each run), uninterpreted beyond it; file model with short reads and a shrunken read buffer; engine; z3"),
- "C20": ("findBodyInjectionIndex/isMatchFound on bodies of 0..9/13 symbolic bytes and on 16 KiB-boundary bodies (filler plus 9 symbolic bytes, marker straddling the window edge): index == first in-window marker (ASCII case-insensitive) else -1; filterHTML with its environment stubbed on bodies of 0..6/7 symbolic bytes incl. bytes >= 0x80 (Latin-1 coding modelled exactly): output == body with one tag before the first in-window marker else unchanged, Content-Length, Content-Encoding removed",
+ "C20": ("findBodyInjectionIndex/isMatchFound on bodies of 0..9/13 symbolic bytes over the marker alphabets, on bodies of 5..8 arbitrary 7-bit bytes and on 16 KiB-boundary bodies (filler plus 9 symbolic bytes, marker straddling the window edge): index == first in-window marker (ASCII case-insensitive) else -1; filterHTML with its environment stubbed on bodies of 0..6/7 symbolic bytes incl. bytes >= 0x80 (Latin-1 coding modelled exactly): output == body with one tag before the first in-window marker else unchanged, Content-Length, Content-Encoding removed",
          "decompression and template are contracts (identity, fixed tag); Latin-1 coding written out in the harness; engine; z3"),
  "C14": ("two goroutines x one operation on the four protected objects (rule cache cold/warm, file-backed list handle and buffer, lazily compiled pattern cold/warm, pooled request): the operation is executed symbolically recording lock events and shared reads/writes per path, and for every pair of traces the solver decides whether two conflicting accesses can be unordered by happens-before in some schedule (clocks are solver variables); a potential race is replayed under go test -race; answer equality: one operation is interrupted after its k-th mutex release (k a solver variable) by the whole operation of another goroutine and both answers must equal the sequential ones (replayed by a native stress loop)",
          "bounded to 2 goroutines x 1 operation; interleavings in which both operations are split are not executed; mutex and pool contracts assumed; engine; z3"),
